@@ -74,12 +74,12 @@ def interp (line : String) : Option (Option Nat × List Mem × Rule × Nat) :=
     let state ← parseState state; let w ← parseWait w
     if n < 1 ∨ n > 255 ∨ q > n then none else
     pure (none, tdkgGroup n q cur nsigs state w,
-          tbtcRule cur (state != some Gen.C47.awaitingResultState && state != none) w, n)
+          tdkgRule cur state w, n)
   | ["tinact", n, h, cur, nsigs, nonce, cn, w] => do
     let n ← n.toNat?; let h ← h.toNat?; let cur ← cur.toNat?; let nsigs ← nsigs.toNat?
     let nonce ← nonce.toNat?; let cn ← cn.toNat?; let w ← parseWait w
     if n < 1 ∨ n > 255 ∨ h > n then none else
-    pure (none, tinactGroup n h cur nsigs nonce cn w, tbtcRule cur (decide (cn > nonce)) w, n)
+    pure (none, tinactGroup n h cur nsigs nonce cn w, tinactRule cur nonce cn w, n)
   | _ => none
 
 def model (line : String) : String :=
